@@ -59,8 +59,7 @@ def jacobian (f : Array E → Array E) (point : Array E) (delta : E) : Res (Mat 
     let xi ← aget state i
     let state ← aset state i (xi + delta)
     let fnew := f state
-    let xi' ← aget state i
-    let state' ← aset state i (xi' - delta)
+    let state' ← aset state i xi            -- the SAVED coordinate is put back (repair D15: `(x + δ) - δ` need not be `x` in floating point)
     let diff ← Vec.sub fnew f0
     let col ← Vec.sdiv diff delta
     let jac ← Mat.setCol jac i col
